@@ -67,6 +67,13 @@ def case_st(draw, allow_fbmc=False):
         # the drivers' own default entry names, with user-tuned weights
         scn["names"] = list(draw(st.permutations(["default_displacement_move", "default_cell_move", "default_exchange_move", "zeta"])))
     scn.pop("alias_of", None)
+    k = 0
+    for e in scn["entries"]:
+        for leaf in S.expr_leaves(e):
+            if leaf.get("t") == "disp":
+                k += 1
+                if (scn["seed"] + k) % 4 == 0:
+                    leaf["apply_constraints"] = False  # documented option: the move may displace constrained atoms
     # accessible volume re-tuned by the user (grand canonical only): a fraction of the cell volume
     return {"scn": scn, "n": draw(st.integers(4, 9)), "vacc": draw(st.sampled_from([None, 0.3, 2.5]))}
 
